@@ -48,7 +48,9 @@ def g_cfg(maxtx, alphabet, pool, mode="leaf", prices="1, 2, 3"):
 
 
 def behaviours_of(res):
-    return [v["h"] for v in res.printed if isinstance(v, dict) and v.get("kind") == "B"]
+    # sorted: TLC's workers print in a nondeterministic order, the seeded sampling must not depend on it
+    return sorted((v["h"] for v in res.printed if isinstance(v, dict) and v.get("kind") == "B"),
+                  key=lambda b: json.dumps(b, sort_keys=True))
 
 
 def nontrivial(b):
@@ -100,10 +102,10 @@ def generate(ctx):
     # G2: random longer sequences over the full alphabet
     depth = 5 if quick else 7
     g2 = ctx.tlc_must("TxApply", g_cfg(depth, "full", 2 * POOL3), name="G2_simulate", timeout=900,
-                      simulate={"num": 150 if quick else 1500}, depth=depth + 1)
+                      simulate={"num": 150 if quick else 4000}, depth=depth + 1)
     sim = behaviours_of(g2)
     rnd.shuffle(sim)
-    behs += sim[:(400 if quick else 6000)]
+    behs += sim[:(400 if quick else 12000)]
     ctx.note("behaviours: %d witnesses, %d design counterexamples, %d bounded-exhaustive, %d simulated" % (nw, ncex, n1 - nw - ncex, len(behs) - n1))
     return behs, design_cex
 
